@@ -35,6 +35,8 @@ var nBlobs = 6
 // blockGasLimit is lowered in the race variant (EVM execution is ~30x slower there).
 var blockGasLimit uint64 = 30_000_000
 
+const genesisTime = 1_000_000
+
 var (
 	blobsOnce sync.Once
 	blobsVal  *blobSet
@@ -72,7 +74,8 @@ func blobs() *blobSet {
 // ---------------------------------------------------------------- world
 
 type world struct {
-	fork   string
+	fork   string        // rule set name for generated code (the latest rule set reached inside the chain)
+	bnd    *boundaryPlan // non-nil: "fork boundary" family (boundary.go)
 	pfork  proggen.Fork
 	config *params.ChainConfig
 	gspec  *core.Genesis
@@ -111,7 +114,13 @@ func forkConfig(fork string) *params.ChainConfig {
 }
 
 func newWorld(rng *rand.Rand, fork string) *world {
-	w := &world{fork: fork, config: forkConfig(fork)}
+	return buildWorld(rng, fork, forkConfig(fork), nil)
+}
+
+// buildWorld creates the genesis (accounts, contracts) for a chain configuration; bnd (optional)
+// carries the genesis blob fields / base fee of the fork-boundary family.
+func buildWorld(rng *rand.Rand, fork string, cfg *params.ChainConfig, bnd *boundaryPlan) *world {
+	w := &world{fork: fork, config: cfg, bnd: bnd}
 	w.pfork, _ = proggen.ParseFork(fork)
 	w.signer = types.LatestSigner(w.config)
 	alloc := types.GenesisAlloc{
@@ -181,6 +190,11 @@ func newWorld(rng *rand.Rand, fork string) *world {
 	// depFail: CALL depRev (inner revert), store the flag, succeed: still no request
 	alloc[w.depFail] = types.Account{Code: proggen.Wrapper(proggen.CALL, w.depRev, proggen.WrapOpts{StoreFlag: true, FlagSlot: 0}), Balance: big.NewInt(1), Nonce: 1}
 	w.allConts = append(append([]common.Address{}, w.gen...), w.probe, w.emitter, w.tstorer, w.depRev, w.depFail)
-	w.gspec = &core.Genesis{Config: w.config, Alloc: alloc, GasLimit: blockGasLimit, BaseFee: big.NewInt(params.InitialBaseFee), Difficulty: common.Big0, Timestamp: 1_000_000}
+	w.gspec = &core.Genesis{Config: w.config, Alloc: alloc, GasLimit: blockGasLimit, BaseFee: big.NewInt(params.InitialBaseFee), Difficulty: common.Big0, Timestamp: genesisTime}
+	if bnd != nil {
+		excess, used := bnd.genesisExcess, bnd.genesisUsed
+		w.gspec.ExcessBlobGas, w.gspec.BlobGasUsed = &excess, &used
+		w.gspec.BaseFee = new(big.Int).SetUint64(bnd.genesisBaseFee)
+	}
 	return w
 }
